@@ -109,7 +109,11 @@ func vxAPIBase() string {
 		if ex.Decodes {
 			var items []string
 			for i := 0; i < ex.NItems && i < 2; i++ {
-				tj, _ := json.Marshal(text)
+				itext := text
+				if i != ex.NItems-1 && !strings.Contains(string(body), "AI Security Sentinel") {
+					itext = vxItemText(false)
+				}
+				tj, _ := json.Marshal(itext)
 				content := "42"
 				switch ex.Kind[i] {
 				case 0:
@@ -159,6 +163,15 @@ func vxExpectedText() string {
 	return string(b)
 }
 
+// vxItemText: the text carried by an item of a response body - the provider's final answer in the
+// last item, a contradicting draft in an earlier one
+func vxItemText(last bool) string {
+	if last {
+		return vxExpectedText()
+	}
+	return `{"verdict": "MATCH", "evidence": "draft item, superseded by the final answer"}`
+}
+
 func vxStopServer() {
 	if vxServer != nil {
 		vxServer.Close()
@@ -169,8 +182,8 @@ func vxStopServer() {
 // ---- specification (written from the property statement, independent of the client code) ----
 
 // vxCallOutcome: what one logical call (<= 4 attempts starting at exchange k) must yield.
-// returns (gotText, nextK)
-func vxCallOutcome(script []vxExchange, k int) (bool, int) {
+// returns (gotText, nextK, chosenIsLast): chosenIsLast tells whether the answer is the last item of the body
+func vxCallOutcome(script []vxExchange, k int) (bool, int, bool) {
 	for attempt := 0; attempt < 4; attempt++ {
 		ex := script[k]
 		k++
@@ -181,18 +194,18 @@ func vxCallOutcome(script []vxExchange, k int) (bool, int) {
 			continue
 		}
 		if ex.Status != 200 || !ex.Decodes {
-			return false, k
+			return false, k, false
 		}
 		for i := ex.NItems - 1; i >= 0; i-- {
 			if ex.Role[i] == 0 || ex.Role[i] == 1 {
 				if ex.Kind[i] == 0 || ex.Kind[i] == 1 {
-					return true, k
+					return true, k, i == ex.NItems-1
 				}
 			}
 		}
-		return false, k
+		return false, k, false
 	}
-	return false, k
+	return false, k, false
 }
 
 func vxScriptedExchanges(n int) []vxExchange {
@@ -224,13 +237,15 @@ func VerifC13_RetryLoop() {
 	vxSentinelAnswer(true, true)
 	vxFinalAnswer(true, "MATCH", "fine")
 	text, err := executeOpenAIRaw(context.Background(), "sys", "user", "key", "gpt-x", vxAPIBase())
-	got, k := vxCallOutcome(script, 0)
+	got, k, last := vxCallOutcome(script, 0)
 	vxAssert("success-iff-usable-answer", (err == nil) == got)
 	vxAssert("requests-sent-as-specified", vxRequestsSent() == k)
 	if err == nil {
 		vxCover("success-reachable", true)
 		// the text handed on is the provider's text, or empty when only unknown part types came back
-		vxAssert("text-is-providers", vxOr(vxStrEq(text, vxExpectedText()), vxStrEq(text, "")))
+		// (the provider's answer is its LAST usable assistant item; an earlier item carries a draft with another text)
+		vxAssert("text-is-providers", vxOr(vxStrEq(text, vxItemText(last)), vxStrEq(text, "")))
+		vxCover("answer-after-a-draft-item", !last || script[k-1].NItems == 2)
 	} else {
 		vxCover("exhaustion-reachable", k == 4)
 	}
